@@ -151,7 +151,10 @@ DoRoundTrip(dec, n) ==
   /\ obs' = [a |-> "RoundTrip", um |-> Unmarshal(dec, Encoded(n, TRUE), TRUE)]
   /\ UNCHANGED <<up, stored>>
 
-\* a NATS client publishes the bytes on the stream's subject; id names the bytes
+\* a NATS client publishes the bytes on the stream's subject; id names the bytes.  Nothing in the property
+\* depends on HOW messages arrive: one at a time or in a burst (several pending at once), on an ordinary stream or
+\* on one with optimistic concurrency control (envelopes without expected offset) - the harness drives these
+\* arrival patterns with the same action, as it does envelopes with very many headers.
 DoPublishRaw(i, pbOK, id) ==
   /\ up
   /\ LET s == Store(i, pbOK) IN
@@ -189,7 +192,9 @@ P_ReadBack == up' /\ stored' = stored /\ obs'.k = "ok" /\ obs'.same /\ obs'.got 
 (* Stream, 15 empty ShrinkISROp, 16..136 Op = X carrying the (empty)        *)
 (* sub-message of operation Y for every pair (X, Y) of the 11 operations    *)
 (* (matched and MISMATCHED).  The other subjects use shape modulo 2 / 4.    *)
-NumShapes == 16 + 11 * 11
+(* 137..150 well-formed operations whose numeric fields take boundary values *)
+(* (replication factor / partition id / epochs: negative, zero, min, max).    *)
+NumShapes == 16 + 11 * 11 + 14
 InternalHandlers == {"propagate", "serverinfo", "partstatus", "notify", "replreq", "leaderoffset"}
 
 DoInternal(h, i, pbOK, shape) ==
